@@ -415,26 +415,42 @@ class Memory:
         return out
 
     def attach_guards(self, v, va, vb, loA, loB, depth):
-        if depth > 3:
+        if depth > 5:
             return v
         if isinstance(v, Enum) and isinstance(va, Enum) and isinstance(vb, Enum):
             da, db = dict(va.variants), dict(vb.variants)
-            if set(da) == set(db) and not va.guards and not vb.guards:
-                # same variant sets: recurse into payloads only
-                return v
             ga = dict(va.guards or ())
             gb = dict(vb.guards or ())
             gs = []
-            for vi, _ in v.variants:
-                sides = []
-                if vi in da:
-                    sides.append(ga.get(vi, frozenset()) | loA)
-                if vi in db:
-                    sides.append(gb.get(vi, frozenset()) | loB)
-                g = frozenset.intersection(*sides) if sides else frozenset()
-                if g:
-                    gs.append((vi, g))
-            return Enum(v.ty, v.variants, v.name, tuple(gs) if gs else None)
+            if not (set(da) == set(db) and not va.guards and not vb.guards):
+                for vi, _ in v.variants:
+                    sides = []
+                    if vi in da:
+                        sides.append(ga.get(vi, frozenset()) | loA)
+                    if vi in db:
+                        sides.append(gb.get(vi, frozenset()) | loB)
+                    g = frozenset.intersection(*sides) if sides else frozenset()
+                    if g:
+                        gs.append((vi, g))
+            # variants present on both sides: the distinction may sit deeper (nested enums in the payload)
+            nvs = []
+            ch = False
+            for vi, fs in v.variants:
+                if vi in da and vi in db and len(fs) == len(da[vi]) == len(db[vi]):
+                    nfs = list(fs)
+                    for i in range(len(nfs)):
+                        if da[vi][i] is db[vi][i]:
+                            continue
+                        nf = self.attach_guards(nfs[i], da[vi][i], db[vi][i], loA, loB, depth + 1)
+                        if nf is not nfs[i]:
+                            nfs[i] = nf
+                            ch = True
+                    nvs.append((vi, tuple(nfs)))
+                else:
+                    nvs.append((vi, fs))
+            if not gs and not ch:
+                return v
+            return Enum(v.ty, tuple(nvs) if ch else v.variants, v.name, tuple(gs) if gs else v.guards)
         if isinstance(v, Struct) and isinstance(va, Struct) and isinstance(vb, Struct) and len(v.fields) == len(va.fields) == len(vb.fields):
             fs = list(v.fields)
             ch = False
